@@ -73,6 +73,23 @@ def check(run):
             viol[f'FLOAT:{ty}'] = {'rule': 'FLOAT', 'what': f'{ty} parameter written as {lit.decode()} must be delivered as bits {want} (correctly rounded); the real code delivered {calls}',
                                    'input': case['input'], 'device': 'TY', 'want': [ty, str(want)], 'role': f'FLOAT:{ty}:rounding'}
     cov['vacuity']['concrete_float_literals_checked_natively'] = float_checked
+    # integer bounds: concrete literals at and just beyond each type's bounds through the real code (the symbolic stage covers the same
+    # region with symbolic tails; this one needs no model of whatever conversion the code uses)
+    INT_TYPES = [('PU8', 0, 2 ** 8 - 1), ('PI8', -2 ** 7, 2 ** 7 - 1), ('PU16', 0, 2 ** 16 - 1), ('PI16', -2 ** 15, 2 ** 15 - 1), ('PU32', 0, 2 ** 32 - 1), ('PI32', -2 ** 31, 2 ** 31 - 1),
+                 ('PU64', 0, 2 ** 64 - 1), ('PI64', -2 ** 63, 2 ** 63 - 1), ('PUS', 0, 2 ** 64 - 1), ('PIS', -2 ** 63, 2 ** 63 - 1)]
+    icases = []
+    for h, lo, hi in INT_TYPES:
+        for v in sorted({lo, lo + 1, hi - 1, hi, hi + 1, hi + 2, hi + 1024, hi + 2048, hi + 2 ** 20, lo - 1, lo - 2, lo - 1024, lo - 2048, 2 * hi + 1, 10 * hi}):
+            icases.append(({'entry': 'run', 'device': 'TY', 'input': (h.encode() + b' ' + str(v).encode() + b'\n').hex(), 'cap': None}, h, v, lo <= v <= hi))
+    iobs = run.native([c for c, _, _, _ in icases])
+    for (case, h, v, fits), o in zip(icases, iobs):
+        calls = [e for e in o.get('events', []) if e[0] == 'call']
+        errs = [e for e in o.get('events', []) if e[0] == 'err']
+        ok = (len(calls) == 1 and not errs and calls[0][2][0] == ['int', str(v)]) if fits else (not calls and len(errs) == 1 and errs[0][1] == -120)
+        if not ok and f'INTBOUND:{h}' not in viol:
+            viol[f'INTBOUND:{h}'] = {'rule': 'INTBOUND', 'what': f'{h} {v}: ' + ('must be delivered exactly' if fits else 'is out of range: no call and exactly one -120') + f'; the real code gave calls {calls} errors {errs}',
+                                    'input': case['input'], 'device': 'TY', 'fits': fits, 'value': str(v), 'role': f'INTBOUND:{h}'}
+    cov['vacuity']['concrete_integer_bound_literals_checked_natively'] = len(icases)
     # when the native float stage above already shows a wrong value, an executor that stops at an unknown construct (in the translator
     # validation or in an exploration) must not hide it
     try:
@@ -132,6 +149,17 @@ def _symbolic_part(run, thorough, cov, viol):
 
 
 def confirm(run, v):
+    if v['rule'] == 'INTBOUND':
+        detail = {}
+        ok_all = False
+        for rel in (False, True):
+            o = run.native([{'entry': 'run', 'device': 'TY', 'input': v['input'], 'cap': None}], release=rel)[0]
+            calls = [e for e in o.get('events', []) if e[0] == 'call']
+            errs = [e for e in o.get('events', []) if e[0] == 'err']
+            good = (len(calls) == 1 and not errs and calls[0][2][0] == ['int', v['value']]) if v['fits'] else (not calls and len(errs) == 1 and errs[0][1] == -120)
+            detail['release' if rel else 'dev'] = {'observation': o, 'reproduced': not good}
+            ok_all = ok_all or not good
+        return ok_all, detail
     if v['rule'] == 'ARG' and v.get('ptype') in ('f32', 'f64') and ('parsed as' in v['what'] or 'modified before delivery' in v['what'] or 'float parser' in v['what']):
         # the symbolic finding is about the mechanism (wrong parser type / value modified); show it on a literal where it matters
         ty = v['ptype']
